@@ -231,16 +231,40 @@ impl Chitchat {
             })
             .collect::<HashMap<_, _>>();
 
-        if self.previous_live_nodes != current_live_nodes {
+        // The extra predicate can start or stop holding for a live node without its max version
+        // changing (e.g. a TTL key being garbage collected): in that case the set of nodes to
+        // publish differs from the one currently held by the watch channel.
+        let passes_extra_predicate = |node_state: &NodeState| {
+            if let Some(liveness_extra_predicate) = &self.config.extra_liveness_predicate {
+                liveness_extra_predicate(node_state)
+            } else {
+                true
+            }
+        };
+        let published_set_changed = {
+            let published_live_nodes = self.live_nodes_watcher_rx.borrow();
+            let mut num_live_nodes_to_publish = 0;
+            let all_already_published = current_live_nodes.keys().all(|chitchat_id| {
+                let Some(node_state) = self.node_state(chitchat_id) else {
+                    return true;
+                };
+                if !passes_extra_predicate(node_state) {
+                    return true;
+                }
+                num_live_nodes_to_publish += 1;
+                published_live_nodes.contains_key(chitchat_id)
+            });
+            !all_already_published || num_live_nodes_to_publish != published_live_nodes.len()
+        };
+
+        if self.previous_live_nodes != current_live_nodes || published_set_changed {
             let live_nodes = current_live_nodes
                 .keys()
                 .cloned()
                 .flat_map(|chitchat_id| {
                     let node_state = self.node_state(&chitchat_id)?;
-                    if let Some(liveness_extra_predicate) = &self.config.extra_liveness_predicate {
-                        if !liveness_extra_predicate(node_state) {
-                            return None;
-                        }
+                    if !passes_extra_predicate(node_state) {
+                        return None;
                     }
                     Some((chitchat_id, node_state.clone()))
                 })
